@@ -209,8 +209,14 @@ def gen(ctx):
                 # a keyword spelled like *args is absorbed by **kwargs (a keyword-only parameter
                 # of that name, sourced to the partial object)
                 names += [p[0] for p in ps if p[1] == 'VP']
+            nb = rng.randint(0, len(ps))
+            if any(p[1] == 'VK' for p in ps):
+                # a keyword spelled like a positional-only parameter that the bound positionals consume
+                # is absorbed by **kwargs too
+                pos = [p for p in ps if p[1] in ('PO', 'PK')]
+                names += [p[0] for p in pos[:nb] if p[1] == 'PO']
             ns = rng.sample(names, rng.randint(0, min(2, len(names))))
-            cases.append(Partial(mk_desc(ps, 100), rng.randint(0, len(ps)), [(x, 5 + j) for j, x in enumerate(ns)]))
+            cases.append(Partial(mk_desc(ps, 100), nb, [(x, 5 + j) for j, x in enumerate(ns)]))
         else:
             o, i = rng.choice(U2), rng.choice(U2cd)
             if rng.random() < 0.15:
@@ -332,6 +338,48 @@ def run(ctx, rep):
             vals = [x for k, v in sig.sources.items() if k != '+depths' for x in v]
             if any(x is not w for x in vals) or list(sig.sources['+depths']) != [w]:
                 rep.violation('C08:modifiers-swap', 'modifiers wrapper of %r: sources %r' % (src, sig.sources), {'kind': 'modifiers', 'src': src})
+    # STACKED modifiers on one function (every pair of forms in both orders, annotate on top), and a
+    # stacked wrapper as the outer function of a declared forwarding: the outermost wrapper object
+    # stands for the function everywhere, at depth 0
+    stack_src = 'def f(a, b, c=1, d=2): pass'
+
+    def stacks():
+        K, P, A, S, E, N = (modifiers.kwoargs('c'), modifiers.posoargs('a'), modifiers.autokwoargs,
+                            modifiers.kwoargs(start='d'), modifiers.posoargs(end='a'), modifiers.annotate(b=int))
+        pairs = [(K, P), (P, K), (A, P), (P, A), (S, K), (K, S), (E, K), (K, E), (N, K), (K, N), (N, P)]
+        for outer, inner in pairs:
+            yield (outer, inner)
+        yield (K, P, N)
+        yield (N, S, E)
+    for decos in stacks():
+        ns = {}
+        exec(stack_src, ns)
+        f = ns['f']
+        w = f
+        try:
+            for d in reversed(decos):
+                w = d(w)
+            sig = specifiers.signature(w)
+        except ValueError:
+            continue
+        nmod += 1
+        vals = [x for k, v in sig.sources.items() if k != '+depths' for x in v]
+        if any(x is not w for x in vals) or list(sig.sources['+depths']) != [w]:
+            rep.violation('C08:modifiers-swap', 'stacked modifiers %r on %r: sources %r (the outermost wrapper is %r)'
+                          % ([getattr(d, 'func', d) for d in decos], stack_src, sig.sources, w), {'kind': 'modifiers', 'src': stack_src})
+            break
+        # the stacked wrapper as outer function of a declared forwarding
+        ns2 = {}
+        exec('def g(z, *args, **kwargs): pass\ndef inner(p, q=1): pass', ns2)
+        g = modifiers.kwoargs('z')(modifiers.annotate(z=int)(ns2['g'])) if decos[0] is not None else ns2['g']
+        fs = specifiers.forwards_to_function(ns2['inner'])(g)
+        sg = specifiers.signature(fs)
+        nmod += 1
+        d0 = [x for x, v in sg.sources['+depths'].items() if v == 0]
+        if len(d0) != 1 or ns2['g'] in sg.sources['+depths'] or any(ns2['g'] in v for k, v in sg.sources.items() if k != '+depths'):
+            rep.violation('C08:modifiers-swap', 'forwards over a stacked modifiers wrapper: the raw function appears in %r' % (sg.sources,),
+                          {'kind': 'modifiers', 'src': 'forwards over stacked'})
+            break
     rep.evaluations += nmod
     for c, m, i in tr[:3] + tr2[:3]:
         rep.sample({'case': c.show(), 'sources': i[1]['srcs'] if i[0] == 'ok' else i[1], 'depths': i[1]['deps'] if i[0] == 'ok' else None})
